@@ -236,3 +236,11 @@ Example c14_example_store :
   /\ eval_ctest ex_cfg (TCond (EBin ONe (ELit 300) (ELit 0))) 65%N ex_data = Some true
   /\ eval_ctest ex_cfg (TCond (EBin ONe (EVar 0) (ELit 0))) 65%N ex_data = Some false.
 Proof. repeat split; vm_compute; reflexivity. Qed.
+
+(** scope note (not a theorem about nmfu): number literals are read by VALUE.  nmfu prints every literal in decimal,
+    so the source spelling 0xFFFFFFFF + 1 is emitted as 4294967295 + 1 and evaluates in long (4294967296), whereas C
+    would type the hexadecimal spelling itself unsigned int and wrap to 0. *)
+Example c14_literal_spelling_note :
+  ceval ex_env (EBin OAdd (ELit 4294967295) (ELit 1)) = Some (TI64, 4294967296)
+  /\ eval_bin OAdd (TU32, 4294967295) (TI32, 1) = Some (TU32, 0).
+Proof. split; vm_compute; reflexivity. Qed.
